@@ -1444,12 +1444,12 @@ fn api_case(
                             let small = case.total_rows() <= 40 && want.len() <= 60;
                             if emit_exec && small && out.rows == *want {
                                 let rows: Vec<Vec<u32>> = want.iter().cloned().collect();
-                                w.push(format!("CDExec {} {} {} {}", q, dc, case.db_coq(), coq_list(&rows, |r| coq_list(r, |v| v.to_string()))));
+                                DCASES.lock().unwrap().push(format!("CDExec {} {} {} {}", q, dc, case.db_coq(), coq_list(&rows, |r| coq_list(r, |v| v.to_string()))));
                                 st.dplans_exec += 1;
                                 st.dplans_certified += 1;
                                 bump(&mut st.dplan_bags_hist, &format!("{} bags", p["bags"]));
                             } else if seen_plans.insert(format!("{q}|{dc}")) {
-                                w.push(format!("CDPlan {} {}", q, dc));
+                                DCASES.lock().unwrap().push(format!("CDPlan {} {}", q, dc));
                                 st.dplans_certified += 1;
                                 bump(&mut st.dplan_bags_hist, &format!("{} bags", p["bags"]));
                             }
@@ -1569,7 +1569,7 @@ fn multi_api(
                                 Ok(dc) if c.small_literals() => {
                                     let q = c.query_coq();
                                     if seen_plans.insert(format!("{q}|{dc}")) {
-                                        w.push(format!("CDPlan {} {}", q, dc));
+                                        DCASES.lock().unwrap().push(format!("CDPlan {} {}", q, dc));
                                         st.dplans_certified += 1;
                                         bump(&mut st.dplan_bags_hist, &format!("{} bags", p["bags"]));
                                     }
@@ -1713,6 +1713,10 @@ fn multi_text_run(cases: &[Case], no_decomp: bool, delta: bool, st: &mut Stats, 
     let program = multi_text(cases, no_decomp, delta);
     text_multi_check(&program, &expected, &format!("c02-text-multi-{}{}", if no_decomp { "nodecomp" } else { "decomp" }, if delta { "-delta" } else { "" }), st, viols);
 }
+
+/// Decomposed-plan cases go to their own (informational) case files: `dplan_ok` still rejects a few
+/// correct planner outputs, so they must not raise an alarm (DESIGN.md 10.8).
+static DCASES: std::sync::Mutex<Vec<String>> = std::sync::Mutex::new(Vec::new());
 
 fn main() {
     let o = verif_harness::parse_opts();
@@ -2010,6 +2014,13 @@ pub fn run(o: &Opts) -> i32 {
         }
     }
     w.flush();
+    {
+        let mut wd = CaseWriter::new(&o.out, "cases_dplans", header, "check_dcase", 60);
+        for c in DCASES.lock().unwrap().drain(..) {
+            wd.push(c);
+        }
+        wd.flush();
+    }
 
     let hist = |h: &BTreeMap<String, usize>| serde_json::to_value(h).unwrap();
     let report = json!({
